@@ -555,6 +555,18 @@ pub mod simdsign {
         let lt = _mm_movemask_epi8(_mm_cmplt_epi8(va, vb));
         if lt & (ne & -ne) != 0 { -1 } else { 1 }
     }
+    #[target_feature(enable = "sse4.2")]
+    pub unsafe fn bad_find_nul(set: *const u8, hay: *const u8) -> i32 {
+        let s = _mm_loadu_si128(set as *const __m128i);
+        let h = _mm_loadu_si128(hay as *const __m128i);
+        _mm_cmpistri::<0>(s, h)
+    }
+    #[target_feature(enable = "sse4.2")]
+    pub unsafe fn ok_find_len(set: *const u8, n: i32, hay: *const u8, m: i32) -> i32 {
+        let s = _mm_loadu_si128(set as *const __m128i);
+        let h = _mm_loadu_si128(hay as *const __m128i);
+        _mm_cmpestri::<0>(s, n, h, m)
+    }
     #[target_feature(enable = "sse2")]
     pub unsafe fn ok_memcmp16(a: *const u8, b: *const u8) -> i32 {
         let bias = _mm_set1_epi8(-128);
@@ -1054,6 +1066,50 @@ pub mod tailmask {
             n += (words[pos / 64] & ((1u64 << rem) - 1)).count_ones();
         }
         n
+    }
+}
+
+// ---------------------------------------------------------------- R-SIBLING.batch
+pub mod batchfx {
+    use std::collections::HashMap;
+    pub struct OkStore {
+        pub storage: HashMap<u32, Vec<u8>>,
+        pub cache: HashMap<u32, Vec<u8>>,
+    }
+    pub struct BadStore {
+        pub storage: HashMap<u32, Vec<u8>>,
+        pub cache: HashMap<u32, Vec<u8>>,
+    }
+    impl OkStore {
+        pub fn remove(&mut self, id: u32) -> bool {
+            self.cache.remove(&id);
+            self.storage.remove(&id).is_some()
+        }
+        pub fn remove_batch(&mut self, ids: &[u32]) -> usize {
+            let mut n = 0;
+            for &id in ids {
+                self.cache.remove(&id);
+                if self.storage.remove(&id).is_some() {
+                    n += 1;
+                }
+            }
+            n
+        }
+    }
+    impl BadStore {
+        pub fn remove(&mut self, id: u32) -> bool {
+            self.cache.remove(&id);
+            self.storage.remove(&id).is_some()
+        }
+        pub fn remove_batch(&mut self, ids: &[u32]) -> usize {
+            let mut n = 0;
+            for &id in ids {
+                if self.storage.remove(&id).is_some() {
+                    n += 1;
+                }
+            }
+            n
+        }
     }
 }
 
